@@ -307,6 +307,12 @@ func (c *Chunk) ReadFrom(r io.Reader) (int64, error) {
 	}
 
 	bitsForHeight := bits.Len( /* chunk height in blocks */ uint(len(c.Sections))*16 + 1)
+	wantLen := calcBitStorageSize(bitsForHeight, 16*16)
+	for _, hm := range [][]uint64{heightmaps.MotionBlocking, heightmaps.WorldSurface} {
+		if hm != nil && len(hm) != wantLen {
+			return n, newBitStorageErr{ArrlLen: len(hm), WantLen: wantLen}
+		}
+	}
 	c.HeightMaps.MotionBlocking = NewBitStorage(bitsForHeight, 16*16, heightmaps.MotionBlocking)
 	c.HeightMaps.WorldSurface = NewBitStorage(bitsForHeight, 16*16, heightmaps.WorldSurface)
 
